@@ -37,7 +37,9 @@ for dp, dn, fns in os.walk(os.path.join(root, "canopen")):
                         d[q] = sh
                     a = n.args
                     funcs[q] = {"params": [x.arg for x in a.posonlyargs + a.args + a.kwonlyargs] + ([a.vararg.arg] if a.vararg else []) + ([a.kwarg.arg] if a.kwarg else []),
-                                "tests": canon.test_keys_of(n), "forms": canon.test_forms_of(n)}
+                                "tests": canon.test_keys_of(n), "forms": canon.test_forms_of(n), "stmt_tests": canon.stmt_test_keys_of(n), "ifexp_tests": canon.ifexp_test_keys_of(n),
+                                "locals": sorted({x.id for x in ast.walk(n) if isinstance(x, ast.Name) and isinstance(x.ctx, ast.Store)}),
+                                "src": ast.unparse(n) if len(ast.unparse(n)) < 4000 else ""}
                     walk(n, q + ".")
         walk(tree, "")
         if d:
@@ -48,7 +50,11 @@ for dp, dn, fns in os.walk(os.path.join(root, "canopen")):
         for c in [n for n in ast.walk(tree) if isinstance(n, ast.ClassDef)]:
             ccs[c.name] = sorted({t.id for st in c.body if isinstance(st, (ast.Assign, ast.AnnAssign)) for t in (st.targets if isinstance(st, ast.Assign) else [st.target])
                                   if isinstance(t, ast.Name)})
-        ref[rel] = {"consts": consts, "class_consts": ccs, "funcs": funcs}
+        cattrs, corder = {}, {}
+        for c in [n for n in ast.walk(tree) if isinstance(n, ast.ClassDef)]:
+            cattrs[c.name] = canon.stored_attrs(c)
+            corder[c.name] = canon.init_attr_order(c)
+        ref[rel] = {"consts": consts, "class_consts": ccs, "funcs": funcs, "class_attrs": cattrs, "init_attr_order": corder}
 json.dump(out, open(os.path.join(V, "sa", "localnames.json"), "w"), indent=0)
 json.dump(ref, open(os.path.join(V, "sa", "reference.json"), "w"), indent=0, sort_keys=True)
 print(sum(len(v) for v in out.values()), "functions with locals;", sum(len(v["funcs"]) for v in ref.values()), "functions in the reference inventory")
